@@ -66,11 +66,13 @@ def strategy(draw):
     style = draw(st.sampled_from(["chr", ""]))
     dotted = draw(st.integers(0, 3)) == 0
     base = [style + str(k) for k in (1, 2, 3, 9, 10, 11, 21, 22)] + [style + "X", style + "Y", style + "M" if style else "MT"]
-    exotic = [style + "Un_gl000220", style + "1_gl000191_random", style + "6_apd_hap1", "chr1_KI270762v1_alt" if style else "KI270762v1_alt", "scaffold_12"]
+    exotic = [style + "Un_gl000220", style + "1_gl000191_random", style + "6_apd_hap1", "chr1_KI270762v1_alt" if style else "KI270762v1_alt", "scaffold_12",
+              # several contigs of one family: names that agree up to a digit deep inside the accession
+              style + "Un_KI270302v1", style + "Un_KI270304v1", style + "1_KI270706v1_random", style + "1_KI270707v1_random", "scaffold_13"]
     if dotted:
-        exotic += ["GL000192.1", "KI270728.1", "chrUn.1" if style else "Un.2"]
+        exotic += ["GL000192.1", "GL000191.1", "KI270728.1", "chrUn.1" if style else "Un.2"]
     k = draw(st.integers(1, 5))
-    chroms = draw(st.lists(st.sampled_from(base + base + exotic), min_size=k, max_size=k, unique=True))
+    chroms = draw(st.lists(st.sampled_from(base + exotic), min_size=k, max_size=k, unique=True))
     n = draw(st.one_of(st.integers(0, 6), st.integers(0, 40)))
     rows = []
     for _ in range(n):
